@@ -513,6 +513,7 @@ Proof.
   destruct (has_ctl _); [discriminate|].
   destruct (split_query (x2f :: t)) as [raw q] eqn:Eq.
   destruct (set_path raw) as [[p rp]|] eqn:Es; [|discriminate].
+  unfold top_mux.
   destruct (mux_dispatch (top_patterns c) (strip_host_port host) p rp (query_suffix q)) as [loc| |h ms] eqn:Em;
     try discriminate.
   destruct (mux_dispatch_found _ _ _ _ _ _ _ Em) as (pt & Hpt & Hhost & Hh).
@@ -523,7 +524,7 @@ Proof.
             p = prefix_path (e_prefix e) ++ rest -> served_by c host (x2f :: t) (e_root e)).
   { intros e rest Hin Hph Hp. exists e, p, rp, rest. rewrite Eq. cbn [fst].
     repeat split; auto. rewrite <- Hph. exact Hhost. }
-  destruct h as [k| |e|e|e|e|e]; try discriminate.
+  unfold top_handle. destruct h as [k| |e|e|e|e|e]; try discriminate.
   - (* log *)
     intro H. apply strip_then_File in H. destruct H as (p' & rp' & Hs & H).
     apply log_mux_File in H. destruct H as [-> (x & ->)].
@@ -805,4 +806,172 @@ Proof.
   replace (filter_map (adv_lit seg_tile) (class_of (log_patterns b) [] true))
     with [([PMulti true], ([PLit seg_tile; PMulti true], LTile))] by (destruct b; vm_compute; reflexivity).
   rewrite match_path_multi. reflexivity.
+Qed.
+
+(* ---- the inner mux on layout paths ---- *)
+
+Lemma log_mux_checkpoint c root F host : Forall plain_seg F ->
+  log_mux c root (prefix_path F) host (prefix_path [seg_checkpoint]) [] []
+  = File root (prefix_path (F ++ [seg_checkpoint])) hs_checkpoint (prefix_path (F ++ [seg_checkpoint])) [].
+Proof.
+  intro HF. unfold log_mux.
+  assert (Hp : Forall plain_seg [seg_checkpoint]) by (constructor; [concrete_plain|constructor]).
+  rewrite (mux_dispatch_plain _ host [seg_checkpoint] [] _ LCheckpoint [])
+    by (try discriminate; try assumption; try apply log_tree_checkpoint; left; reflexivity).
+  apply (file_server_plain root F [seg_checkpoint] hs_checkpoint seg_checkpoint F);
+    [discriminate|apply Forall_app; auto|reflexivity|discriminate].
+Qed.
+
+Lemma log_mux_logjson c root F host : Forall plain_seg F ->
+  log_mux c root (prefix_path F) host (prefix_path [seg_logjson]) [] []
+  = File root (prefix_path (F ++ [seg_logjson])) hs_json (prefix_path (F ++ [seg_logjson])) [].
+Proof.
+  intro HF. unfold log_mux.
+  assert (Hp : Forall plain_seg [seg_logjson]) by (constructor; [concrete_plain|constructor]).
+  rewrite (mux_dispatch_plain _ host [seg_logjson] [] _ LLogJSON [])
+    by (try discriminate; try assumption; try apply log_tree_logjson; left; reflexivity).
+  apply (file_server_plain root F [seg_logjson] hs_json seg_logjson F);
+    [discriminate|apply Forall_app; auto|reflexivity|discriminate].
+Qed.
+
+Lemma log_mux_issuer c root F host fp : Forall plain_seg F -> plain_seg fp -> fp <> index_html ->
+  log_mux c root (prefix_path F) host (prefix_path [seg_issuer; fp]) [] []
+  = File root (prefix_path (F ++ [seg_issuer; fp])) hs_issuer (prefix_path (F ++ [seg_issuer; fp])) [].
+Proof.
+  intros HF Hfp Hni. unfold log_mux.
+  assert (Hp : Forall plain_seg [seg_issuer; fp]) by (constructor; [concrete_plain|constructor; [assumption|constructor]]).
+  rewrite (mux_dispatch_plain _ host [seg_issuer; fp] [] _ LIssuer [fp])
+    by (try discriminate; try assumption; try (now apply log_tree_issuer); left; reflexivity).
+  apply (file_server_plain root F [seg_issuer; fp] hs_issuer fp (F ++ [seg_issuer]));
+    [discriminate|apply Forall_app; auto|now rewrite <- app_assoc|assumption].
+Qed.
+
+Lemma log_mux_tile c root F host t0 T init l :
+  Forall plain_seg F -> Forall plain_seg (t0 :: T) -> t0 :: T = init ++ [l] -> l <> index_html ->
+  log_mux c root (prefix_path F) host (prefix_path (seg_tile :: t0 :: T)) [] []
+  = File root (prefix_path (F ++ seg_tile :: t0 :: T)) (tile_headers (join_with x2f (t0 :: T)))
+         (prefix_path (F ++ seg_tile :: t0 :: T)) [].
+Proof.
+  intros HF HT Hi Hl. unfold log_mux.
+  assert (Hp : Forall plain_seg (seg_tile :: t0 :: T)) by (constructor; [concrete_plain|assumption]).
+  assert (Hsafe : safe (join_with x2f (t0 :: T))).
+  { pose proof (safe_prefix_path (t0 :: T) HT) as S. rewrite prefix_path_join in S by discriminate.
+    unfold safe in S. cbn [forallb] in S. apply andb_true_iff in S. apply S. }
+  rewrite (mux_dispatch_plain _ host (seg_tile :: t0 :: T) [] [PLit seg_tile; PMulti true] LTile [join_with x2f (t0 :: T)]).
+  - cbn [nth].
+    apply (file_server_plain root F (seg_tile :: t0 :: T) _ l (F ++ seg_tile :: init));
+      [discriminate|apply Forall_app; auto| |assumption].
+    rewrite Hi. now rewrite <- app_assoc.
+  - discriminate.
+  - assumption.
+  - rewrite log_tree_tile. now rewrite path_unescape_safe.
+  - right. exists [PLit seg_tile; PMulti true], LTile.
+    change ((seg_tile :: t0 :: T) ++ [[]]) with (seg_tile :: t0 :: (T ++ [[]])).
+    rewrite log_tree_tile. eexists. split; [reflexivity|]. split; [reflexivity|]. cbn [length]. lia.
+Qed.
+
+(* ===================================================================================== *)
+(* part 9: the outer mux on layout paths                                                  *)
+(* ===================================================================================== *)
+
+Definition reserved : list bytes := [seg_tile; seg_checkpoint; seg_issuer; seg_logjson].
+Definition in_list (x : bytes) (l : list bytes) : bool := existsb (bytes_eqb x) l.
+
+Definition host_get (c : config) (host : bytes) : list (@cand top_h) := class_of (top_patterns c) host true.
+
+(* a candidate that cannot capture a log's layout: its next segment is a literal that is not
+   one of tile, checkpoint, issuer, log.v3.json *)
+Definition harmless_log (cd : @cand top_h) : bool :=
+  match fst cd with PLit x :: _ => negb (in_list x reserved) | _ => false end.
+
+(* nothing else registered for the host shadows the layout below the log's prefix *)
+Definition log_unshadowed (c : config) (e : entry) : Prop :=
+  length (filter (fun cd => negb (harmless_log cd)) (residual (host_get c (e_host e)) (e_prefix e))) = 1%nat.
+
+Lemma route_plain c host segs : segs <> [] -> Forall plain_seg segs ->
+  route c host (prefix_path segs) = top_mux c (strip_host_port host) (prefix_path segs) [] [].
+Proof.
+  intros Hne Hp. unfold route.
+  pose proof (safe_prefix_path segs Hp) as Hs.
+  destruct (prefix_path segs) as [|b t] eqn:E; [rewrite prefix_path_join in E by assumption; discriminate|].
+  assert (b = x2f) by (rewrite prefix_path_join in E by assumption; now injection E). subst b.
+  rewrite has_ctl_safe, split_query_safe, set_path_safe by assumption. reflexivity.
+Qed.
+
+Lemma strip_prefix_plain Q R : strip_prefix (prefix_path Q) (prefix_path Q ++ prefix_path R) [] = Some (prefix_path R, []) \/ (Q = [] /\ True).
+Proof.
+  destruct Q as [|q Q]; [right; auto|left].
+  unfold strip_prefix. destruct (prefix_path (q :: Q)) as [|a pp] eqn:E; [discriminate E|].
+  rewrite trim_prefix_app. cbn [is_nil orb andb].
+  replace (length (prefix_path R) <? length ((a :: pp) ++ prefix_path R))%nat with true.
+  - cbn [andb]. reflexivity.
+  - symmetry. apply Nat.ltb_lt. rewrite app_length. cbn [length]. lia.
+Qed.
+
+Lemma strip_then_plain Q R hs k :
+  strip_then (prefix_path Q) (prefix_path (Q ++ R)) [] hs k = k (prefix_path R) [].
+Proof.
+  unfold strip_then. rewrite prefix_path_app. destruct (strip_prefix_plain Q R) as [E|[-> _]].
+  - now rewrite E.
+  - reflexivity.
+Qed.
+
+Lemma In_top_log c e : In e (c_logs c) ->
+  In (mkPat true (e_host e) (lits (e_prefix e) ++ [PMulti false]) (HLog e)) (top_patterns c).
+Proof.
+  intro H. unfold top_patterns. apply in_or_app. right. apply in_or_app. right. apply in_or_app. left.
+  apply in_flat_map. exists e. split; [assumption|now left].
+Qed.
+
+Lemma In_top_wit c e pt : In e (c_wits c) -> In pt (wit_patterns_of e) -> In pt (top_patterns c).
+Proof.
+  intros H Hp. unfold top_patterns. apply in_or_app. right. apply in_or_app. right. apply in_or_app. right.
+  apply in_or_app. left. apply in_flat_map. exists e. split; assumption.
+Qed.
+
+Lemma harmless_log_other l0 (l : list (@cand top_h)) : in_list l0 reserved = true ->
+  Forall (fun y => negb (harmless_log y) = false) l -> Forall (fun cd => lit_other l0 cd = true) l.
+Proof.
+  intros Hr H. eapply Forall_impl; [|exact H]. intros cd Hc. apply negb_false_iff in Hc.
+  unfold harmless_log in Hc. unfold lit_other. destruct (fst cd) as [|[y| |n] r]; try discriminate.
+  apply negb_true_iff in Hc. apply negb_true_iff.
+  destruct (bytes_eqb y l0) eqn:E; [|reflexivity]. apply bytes_eqb_eq in E. subst y. congruence.
+Qed.
+
+(* the outer tree sends prefix ++ layout path to the log *)
+Lemma top_tree_log c e l0 L host :
+  In e (c_logs c) -> e_host e <> [] -> host = e_host e -> Forall plain_seg (e_prefix e) -> log_unshadowed c e ->
+  in_list l0 reserved = true -> plain_seg l0 ->
+  tree_match (top_patterns c) host (e_prefix e ++ l0 :: L)
+  = Some ((lits (e_prefix e) ++ [PMulti false], HLog e), []).
+Proof.
+  intros Hin Hh -> HP Hu Hr Hl0. apply tree_match_host; [assumption|].
+  apply match_path_consume; [assumption|].
+  set (x := ([PMulti false], (lits (e_prefix e) ++ [PMulti false], HLog e)) : @cand top_h).
+  assert (Hx : In x (residual (class_of (top_patterns c) (e_host e) true) (e_prefix e))).
+  { apply residual_keeps. exact (class_of_intro _ _ (In_top_log c e Hin)). }
+  destruct (unique_split _ _ x Hx eq_refl Hu) as (l1 & l2 & E & Hoth).
+  unfold host_get in E. rewrite E. unfold x. Show. rewrite step_multi; [reflexivity|assumption|].
+  now apply harmless_log_other.
+Qed.
+
+Lemma top_mux_log c e L l0 L' host :
+  In e (c_logs c) -> e_host e <> [] -> strip_host_port host = e_host e ->
+  Forall plain_seg (e_prefix e) -> log_unshadowed c e ->
+  L = l0 :: L' -> Forall plain_seg L -> in_list l0 reserved = true ->
+  route c host (prefix_path (e_prefix e ++ L))
+  = log_mux c (e_root e) [] (e_host e) (prefix_path L) [] [].
+Proof.
+  intros Hin Hh Hs HP Hu -> HL Hr.
+  assert (Hl0 : plain_seg l0) by now inversion HL.
+  assert (Hall : Forall plain_seg (e_prefix e ++ l0 :: L')) by (apply Forall_app; auto).
+  assert (Hne : e_prefix e ++ l0 :: L' <> []) by (destruct (e_prefix e); discriminate).
+  rewrite route_plain by assumption. rewrite Hs. unfold top_mux.
+  rewrite (mux_dispatch_plain _ (e_host e) (e_prefix e ++ l0 :: L') [] _ (HLog e) []); try assumption.
+  - unfold top_handle. now rewrite strip_then_plain.
+  - now apply top_tree_log.
+  - right. exists (lits (e_prefix e) ++ [PMulti false]), (HLog e), [].
+    rewrite <- app_assoc. cbn [app]. split; [now apply top_tree_log|]. split.
+    + unfold last_multi. rewrite rev_app_distr. reflexivity.
+    + rewrite !app_length. unfold lits. rewrite map_length. cbn [length]. lia.
 Qed.
